@@ -37,6 +37,9 @@ pub enum Ev {
     Tick(u8),
     /// macro step: Respond(r), Poll(r), ConnReady(c), RunBg(hand-back task) in one transition
     Finish(u8),
+    /// a spurious wake-up: whoever waits for connection c to become ready is woken although nothing changed
+    /// (a connection that wakes its waiter on every body chunk does this)
+    Nudge(u8),
 }
 
 use crate::det::{advance_virtual_time, enter_virtual_runtime};
@@ -58,6 +61,7 @@ impl Ev {
             Ev::RunBg(t) => format!("RunBg(t{t})"),
             Ev::Tick(k) => format!("Tick({})", match k { 0 => "T/2", 1 => "2T", _ => "3T/4" }),
             Ev::Finish(r) => format!("Finish(r{r})"),
+            Ev::Nudge(c) => format!("Nudge(c{c})"),
         }
     }
     pub fn parse(s: &str) -> Option<Ev> {
@@ -82,6 +86,7 @@ impl Ev {
             "RunBg" => Ev::RunBg(num("t")?),
             "Tick" => Ev::Tick(match arg { "T/2" => 0, "2T" => 1, _ => 2 }),
             "Finish" => Ev::Finish(num("r")?),
+            "Nudge" => Ev::Nudge(num("c")?),
             _ => return None,
         })
     }
@@ -176,6 +181,8 @@ pub struct SimConfig {
     pub exec_polls_ready: bool,
     /// the protocol only yields HTTP/1.1 connections
     pub h1_only_protocol: bool,
+    /// spurious wake-ups of whoever waits for a busy connection
+    pub ev_nudge: bool,
     pub ev_cancel: bool,
     pub ev_dial_fail: bool,
     pub ev_close: bool,
@@ -210,6 +217,7 @@ impl SimConfig {
             strict_is_open: true,
             exec_polls_ready: false,
             h1_only_protocol: false,
+            ev_nudge: false,
             ev_cancel: true,
             ev_dial_fail: true,
             ev_close: true,
@@ -228,7 +236,7 @@ impl SimConfig {
             self.name, self.max_requests, self.origins, self.allow_h1, self.allow_h2, self.continue_after_preemption,
             self.max_idle_per_host, self.idle_timeout, self.split_handshake, self.strict_is_open, self.ev_cancel,
             self.ev_dial_fail, self.ev_close, self.ev_upgrade, self.max_ticks, if self.burst { " burst" } else { "" }
-        ) + if self.exec_polls_ready { " exec-polls-ready" } else { "" } + if self.h1_only_protocol { " h1-only-protocol" } else { "" } + if self.fine_ticks { " fine-ticks" } else { "" } + &(if self.prelude.is_empty() { String::new() } else { format!(" starting-after=[{}]", self.prelude.join(" ")) }) + if self.macro_finish { " macro-finish" } else { "" } + &self.max_depth.map(|d| format!(" depth<={d}")).unwrap_or_else(|| " to-fixpoint".into())
+        ) + if self.exec_polls_ready { " exec-polls-ready" } else { "" } + if self.h1_only_protocol { " h1-only-protocol" } else { "" } + if self.ev_nudge { " spurious-wakes" } else { "" } + if self.fine_ticks { " fine-ticks" } else { "" } + &(if self.prelude.is_empty() { String::new() } else { format!(" starting-after=[{}]", self.prelude.join(" ")) }) + if self.macro_finish { " macro-finish" } else { "" } + &self.max_depth.map(|d| format!(" depth<={d}")).unwrap_or_else(|| " to-fixpoint".into())
     }
 }
 
@@ -444,6 +452,9 @@ impl Sim {
                 if cfg.ev_close && c.open {
                     v.push(Ev::ConnClose(i as u8));
                 }
+                if cfg.ev_nudge && c.busy && c.open && !c.ready_wakers.is_empty() {
+                    v.push(Ev::Nudge(i as u8));
+                }
             }
             if cfg.ev_cancel {
                 for (i, r) in self.reqs.iter().enumerate() {
@@ -620,7 +631,7 @@ impl Sim {
                 req.outcome = Outcome::Cancelled;
                 req.cancelled_step = Some(step);
             }
-            Ev::DialOk(_) | Ev::DialFail(_) | Ev::HsOk(_) | Ev::HsFail(_) | Ev::Respond(_) | Ev::ConnReady(_) | Ev::ConnClose(_) | Ev::Upgrade(_) => apply_env(e),
+            Ev::DialOk(_) | Ev::DialFail(_) | Ev::HsOk(_) | Ev::HsFail(_) | Ev::Respond(_) | Ev::ConnReady(_) | Ev::ConnClose(_) | Ev::Upgrade(_) | Ev::Nudge(_) => apply_env(e),
             Ev::RunBg(t) => {
                 actor = Actor::Bg(t);
                 world::set_actor(Some(actor));
@@ -988,6 +999,11 @@ pub fn apply_env(e: Ev) {
             cs.upgraded = true;
             cs.close_step = Some(step);
             for wk in cs.ready_wakers.drain(..) {
+                wk.wake();
+            }
+        }),
+        Ev::Nudge(c) => world::with(|w| {
+            for wk in w.conns[c as usize].ready_wakers.drain(..) {
                 wk.wake();
             }
         }),
